@@ -90,6 +90,8 @@
 -/
 import CxxModel.Theorems.DeclGenItems
 import CxxModel.Theorems.BaseItems
+import CxxModel.Theorems.FinalItems
+import CxxModel.Theorems.MembersN
 import CxxModel.Tables
 import CxxModel.Props.C04
 import CxxModel.SimpleFold
@@ -876,6 +878,42 @@ example (env : Env) (hp : RulesProgress env.cfg = true) (hnf : env.faultAt = non
     subst hq
     exact ⟨baseA_ok, rfl, by show 1 + 0 + 2 ≤ F; omega⟩
   · exact .cons (b1 := B _) ⟨vdecl_ok "f" (by decide) F (by omega), Y [_, _, _] _ (by decide)⟩ (.nil _)
+/-- `class E final : A { T f ; } ;` meets the hypotheses of `Item.clsFB` -/
+example (env : Env) (hp : RulesProgress env.cfg = true) (hnf : env.faultAt = none) (hskip : ∀ i h, env.skip i h = false)
+    (F D : Nat) (hF : 5 ≤ F) (lex : LexState) :
+    ∃ bE, (Item.clsFB env hp hnf F D hskip (tkw "class" "class") (tkw "NAME" "E") [] [tkw "final" "final"] [] { baseA with specs := [] }
+        [Member.field env hp hnf F D (vdecl "f")]).At
+      { tokbuf := [tkw "class" "class", tkw "NAME" "E", tkw "final" "final", tkw ":" ":", tkw "NAME" "A", tkw "{" "{",
+          tkw "NAME" "T", tkw "NAME" "f", tkw ";" ";", tkw "}" "}", tkw ";" ";"], lex := lex, bounded := true } bE := by
+  let B : List Tok → Buf := fun l => { tokbuf := l, lex := lex, bounded := true }
+  have Y : ∀ (ts rest : List Tok), (∀ t ∈ ts, isDiscard t.type = false) → Yields env.cfg (B (ts ++ rest)) ts (B rest) :=
+    fun ts rest h => Yields.of_tokbuf env.cfg lex true ts rest h
+  refine ⟨B [], tkw ":" ":", tkw "{" "{", tkw "}" "}", tkw ";" ";", B _, B [tkw "}" "}", tkw ";" ";"], by decide, rfl, rfl, by decide, by simp, rfl, rfl, rfl,
+    by show 0 + 2 ≤ F; omega, ⟨rfl, by simp, ⟨by decide, rfl, by decide, by decide, by decide, by intro t ht; cases ht⟩,
+      by show 0 + 0 + 2 ≤ F; omega, by show 0 + 1 ≤ F; omega, by decide, by show 1 + 1 ≤ F; omega⟩,
+    Y [_, _, _, _, _, _] _ (by decide), ?_, Y [_, _] _ (by decide)⟩
+  exact .cons (b1 := B _) ⟨vdecl_ok "f" (by decide) F (by omega), Y [_, _, _] _ (by decide)⟩ (.nil _)
+/-- `class W { T f ; W ( ) ; ~W ( ) ; } ;` meets the hypotheses of `Item.clsN`: a class with a field, its default constructor
+    and its destructor is covered by `C01_whole_source` -/
+example (env : Env) (hp : RulesProgress env.cfg = true) (hnf : env.faultAt = none) (hskip : ∀ i h, env.skip i h = false)
+    (F D : Nat) (hF : 5 ≤ F) (lex : LexState) :
+    ∃ bE, (Item.clsN env hp hnf F D hskip "W" (tkw "class" "class") (tkw "NAME" "W") []
+        [(Member.field env hp hnf F D (vdecl "f")).toN (nameIs "W"),
+         MemberN.ctor0 env hp hnf F D "W" (tkw "NAME" "W") (tkw "(" "(") (tkw ")" ")") [] (tkw ";" ";"),
+         MemberN.dtor0 env hp hnf F D "W" (tkw "NAME" "~W") (tkw "(" "(") (tkw ")" ")") [] (tkw ";" ";")]).At
+      { tokbuf := [tkw "class" "class", tkw "NAME" "W", tkw "{" "{", tkw "NAME" "T", tkw "NAME" "f", tkw ";" ";",
+          tkw "NAME" "W", tkw "(" "(", tkw ")" ")", tkw ";" ";", tkw "NAME" "~W", tkw "(" "(", tkw ")" ")", tkw ";" ";",
+          tkw "}" "}", tkw ";" ";"], lex := lex, bounded := true } bE := by
+  let B : List Tok → Buf := fun l => { tokbuf := l, lex := lex, bounded := true }
+  have Y : ∀ (ts rest : List Tok), (∀ t ∈ ts, isDiscard t.type = false) → Yields env.cfg (B (ts ++ rest)) ts (B rest) :=
+    fun ts rest h => Yields.of_tokbuf env.cfg lex true ts rest h
+  refine ⟨B [], tkw "{" "{", tkw "}" "}", tkw ";" ";", B _, B [tkw "}" "}", tkw ";" ";"], by decide, rfl, rfl, by decide, by simp, rfl, rfl, rfl,
+    by show 0 + 2 ≤ F; omega, rfl, Y [_, _, _] _ (by decide), ?_, Y [_, _] _ (by decide)⟩
+  refine .cons (b1 := B _) ⟨vdecl_ok "f" (by decide) F (by omega), Y [_, _, _] _ (by decide)⟩
+    (.cons (b1 := B _) ⟨⟨rfl, rfl, by decide, by decide, rfl, by decide, rfl, rfl, rfl, rfl, by show 0 + 1 ≤ F; omega, by omega,
+        fun d acc => ⟨_, rfl⟩⟩, Y [_, _, _, _] _ (by decide)⟩
+      (.cons (b1 := B _) ⟨⟨rfl, rfl, by decide, by decide, rfl, by decide, rfl, rfl, rfl, rfl, by show 0 + 1 ≤ F; omega, by omega,
+        fun d acc => ⟨_, rfl⟩⟩, Y [_, _, _, _] _ (by decide)⟩ (.nil _)))
 end nonvacuity
 
 end Cxx
